@@ -47,4 +47,27 @@ def build():
                        subst=[('entitled_classes.contains(', 'vx_contains(&entitled_classes, ', 'R14')],
                        ensures=[('given_up_iff_held_under_this_parent_and_no_longer_listed_under_the_parents_name', f'''r == (rc_parent(**{cl}) == parent_handle
                             && !(exists |i: int| 0 <= i < entitled_classes@.len() && *(#[trigger] entitled_classes@[i]) == rc_parent_name(**{cl})))''')]))
+    # the list the predicate above is asked against: the names of ALL classes of the list reply, whatever they carry (a class listed with
+    # an empty resource set is still listed: the second loop of the function serves it, so it must not be given up by the first).
+    # The iterator chain is read as the declared function below (R14, assumed std semantics of iter().map(f).collect()).
+    U.opaque('ResourceClassListResponse', '')
+    U.opaque('ResourceClassEntitlements', '')
+    U.add('''
+pub uninterp spec fn listed_classes(l: ResourceClassListResponse) -> Seq<ResourceClassEntitlements>;
+pub uninterp spec fn ent_name(e: ResourceClassEntitlements) -> ResourceClassName;
+/// ASSUMED: `l.classes().iter().map(|c| c.class_name()).collect::<Vec<_>>()` lists the name of every class of the reply, in order
+#[verifier::external_body]
+pub fn vx_all_class_names(l: &ResourceClassListResponse) -> (r: Vec<&ResourceClassName>)
+    ensures r@.len() == listed_classes(*l).len(), forall |i: int| 0 <= i < r@.len() ==> *(#[trigger] r@[i]) == ent_name(listed_classes(*l)[i])
+{ unimplemented!() }
+''')
+    U.free(U.stmt_fn(CA, 'CertAuth', 'process_update_entitlements', 'let entitled_classes =', 'vx_entitled_class_names',
+                     '(entitlements: &ResourceClassListResponse) -> (r: Vec<&ResourceClassName>)', tail='entitled_classes',
+                     subst=[('''entitlements
+            .classes()
+            .iter()
+            .map(|c| c.class_name())
+            .collect::<Vec<_>>()''', 'vx_all_class_names(entitlements)', 'R14')],
+                     ensures=[('every_listed_class_counts_as_entitled', '''r@.len() == listed_classes(*entitlements).len()
+                        && forall |i: int| 0 <= i < r@.len() ==> *(#[trigger] r@[i]) == ent_name(listed_classes(*entitlements)[i])''')]))
     return U
